@@ -525,8 +525,11 @@ func (cm *BasicConnMgr) getConnsToClose() []network.Conn {
 			// its grace period has just started, leave it alone.
 		} else if len(inf.conns) == 0 && inf.temp {
 			// handle temporary entries for early tags -- this entry has gone past the grace period
-			// and still holds no connections, so prune it.
-			delete(s.peers, inf.id)
+			// and still holds no connections, so prune it -- unless a concurrent trim already
+			// pruned it and the peer has been given a new entry since.
+			if s.peers[inf.id] == inf {
+				delete(s.peers, inf.id)
+			}
 		} else {
 			for c := range inf.conns {
 				selected = append(selected, c)
